@@ -71,48 +71,52 @@ def Heap.read (h : Heap) (r : StrRef) : Heap × Str :=
   | some s => (h, s)
   | none => ({ h with ub := true }, [])
 
-/-- `SimpleTerm<'static>` -/
+/-- the atomic variants of `SimpleTerm`: `Iri`, `BlankNode`, `Variable` hold one `MownStr`,
+`LiteralDatatype` (lexical form, datatype) and `LiteralLanguage` (lexical form, tag) two -/
+inductive AKind where
+  | iri | bnode | var | lit | lang
+  deriving Repr, DecidableEq, Inhabited
+
+/-- `SimpleTerm<'static>`: an atom = its variant + its `MownStr` fields in declaration order;
+`Triple(Box<[Self; 3]>)` -/
 inductive TermRef where
-  | iri (s : StrRef)
-  | bnode (s : StrRef)
-  | lit (lex dt : StrRef)
-  | lang (lex tag : StrRef)
+  | atom (k : AKind) (ss : List StrRef)
   | triple (s p o : TermRef)
-  | var (s : StrRef)
   deriving Repr, DecidableEq, Inhabited
 
 namespace TermRef
 
 /-- every string field, left to right, recursively -/
 def refs : TermRef → List StrRef
-  | .iri s => [s]
-  | .bnode s => [s]
-  | .var s => [s]
-  | .lit a b => [a, b]
-  | .lang a b => [a, b]
+  | .atom _ ss => ss
   | .triple s p o => s.refs ++ p.refs ++ o.refs
 
 /-- the allocations this value owns (released when it is dropped) -/
 def ownedIds (t : TermRef) : List AllocId := (t.refs.filter (·.owned)).map (·.a)
 
 def sameShape : TermRef → TermRef → Bool
-  | .iri _, .iri _ => true
-  | .bnode _, .bnode _ => true
-  | .var _, .var _ => true
-  | .lit _ _, .lit _ _ => true
-  | .lang _ _, .lang _ _ => true
+  | .atom k ss, .atom k' ss' => k == k' && ss.length == ss'.length
   | .triple a b c, .triple x y z => sameShape a x && sameShape b y && sameShape c z
   | _, _ => false
 
 end TermRef
 
+/-- the term an atom's variant and strings denote -/
+def mkTerm : AKind → List Str → Option Term
+  | .iri, [s] => some (.iri s)
+  | .bnode, [s] => some (.bnode s)
+  | .var, [s] => some (.var s)
+  | .lit, [l, d] => some (.lit l d)
+  | .lang, [l, t] => some (.lang l t)
+  | _, _ => none
+
+def Heap.derefs (h : Heap) : List StrRef → Option (List Str)
+  | [] => some []
+  | r :: rs => (h.deref r).bind fun s => (h.derefs rs).map fun ss => s :: ss
+
 /-- pure observation of a term's content (`none` = some string dangles) -/
 def readTerm? (h : Heap) : TermRef → Option Term
-  | .iri s => (h.deref s).map .iri
-  | .bnode s => (h.deref s).map .bnode
-  | .var s => (h.deref s).map .var
-  | .lit a b => (h.deref a).bind fun x => (h.deref b).map fun y => .lit x y
-  | .lang a b => (h.deref a).bind fun x => (h.deref b).map fun y => .lang x y
+  | .atom k ss => (h.derefs ss).bind (mkTerm k)
   | .triple s p o =>
     (readTerm? h s).bind fun x => (readTerm? h p).bind fun y => (readTerm? h o).map fun z => .triple x y z
 
@@ -120,13 +124,16 @@ def readTerm? (h : Heap) : TermRef → Option Term
 buffers, which are live as long as the map is) -/
 def keyTerm (h : Heap) (k : TermRef) : Term := (readTerm? h k).getD (.iri [])
 
+def Heap.reads (h : Heap) : List StrRef → Heap × List Str
+  | [] => (h, [])
+  | r :: rs =>
+    let (h1, s) := h.read r
+    let (h2, ss) := h1.reads rs
+    (h2, s :: ss)
+
 /-- reading a term through its accessors, as an effect -/
 def readTermU (h : Heap) : TermRef → Heap × Term
-  | .iri s => let (h, x) := h.read s; (h, .iri x)
-  | .bnode s => let (h, x) := h.read s; (h, .bnode x)
-  | .var s => let (h, x) := h.read s; (h, .var x)
-  | .lit a b => let (h, x) := h.read a; let (h, y) := h.read b; (h, .lit x y)
-  | .lang a b => let (h, x) := h.read a; let (h, y) := h.read b; (h, .lang x y)
+  | .atom k ss => let (h1, xs) := h.reads ss; (h1, (mkTerm k xs).getD (.iri []))
   | .triple s p o =>
     let (h, x) := readTermU h s
     let (h, y) := readTermU h p
@@ -135,14 +142,25 @@ def readTermU (h : Heap) : TermRef → Heap × Term
 
 /-! ### `api/src/term/_simple.rs` -/
 
+def Heap.allocs (h : Heap) : List Str → Heap × List StrRef
+  | [] => (h, [])
+  | s :: ss =>
+    let (h1, r) := h.alloc s
+    let (h2, rs) := h1.allocs ss
+    (h2, r :: rs)
+
+def atomAlloc (h : Heap) (k : AKind) (ss : List Str) : Heap × TermRef :=
+  let (h1, rs) := h.allocs ss
+  (h1, .atom k rs)
+
 /-- `SimpleTerm::from_term(t)` for a caller's term `t`: every string goes through `ensure_owned`
 and ends up in a fresh buffer (lexical form first, then tag / datatype; `s`, `p`, `o` in order) -/
 def allocTerm (h : Heap) : Term → Heap × TermRef
-  | .iri s => let (h, r) := h.alloc s; (h, .iri r)
-  | .bnode s => let (h, r) := h.alloc s; (h, .bnode r)
-  | .var s => let (h, r) := h.alloc s; (h, .var r)
-  | .lit l d => let (h, a) := h.alloc l; let (h, b) := h.alloc d; (h, .lit a b)
-  | .lang l t => let (h, a) := h.alloc l; let (h, b) := h.alloc t; (h, .lang a b)
+  | .iri s => atomAlloc h .iri [s]
+  | .bnode s => atomAlloc h .bnode [s]
+  | .var s => atomAlloc h .var [s]
+  | .lit l d => atomAlloc h .lit [l, d]
+  | .lang l t => atomAlloc h .lang [l, t]
   | .triple s p o =>
     let (h, a) := allocTerm h s
     let (h, b) := allocTerm h p
@@ -166,33 +184,35 @@ def cloneRef (h : Heap) (r : StrRef) : Heap × StrRef :=
     h1.alloc s
   else (h, r)
 
+def cloneRefs (h : Heap) : List StrRef → Heap × List StrRef
+  | [] => (h, [])
+  | r :: rs =>
+    let (h1, r') := cloneRef h r
+    let (h2, rs') := cloneRefs h1 rs
+    (h2, r' :: rs')
+
 /-- `#[derive(Clone)]` of `SimpleTerm` (`Box<[Self; 3]>::clone` clones the three components) -/
 def cloneTermRef (h : Heap) : TermRef → Heap × TermRef
-  | .iri s => let (h, r) := cloneRef h s; (h, .iri r)
-  | .bnode s => let (h, r) := cloneRef h s; (h, .bnode r)
-  | .var s => let (h, r) := cloneRef h s; (h, .var r)
-  | .lit a b => let (h, x) := cloneRef h a; let (h, y) := cloneRef h b; (h, .lit x y)
-  | .lang a b => let (h, x) := cloneRef h a; let (h, y) := cloneRef h b; (h, .lang x y)
+  | .atom k ss => let (h1, rs) := cloneRefs h ss; (h1, .atom k rs)
   | .triple s p o =>
     let (h, a) := cloneTermRef h s
     let (h, b) := cloneTermRef h p
     let (h, c) := cloneTermRef h o
     (h, .triple a b c)
 
+/-- `ensure_owned` on a borrowed `MownStr`: read it, put the bytes into a fresh buffer -/
+def copyRefs (h : Heap) : List StrRef → Heap × List StrRef
+  | [] => (h, [])
+  | r :: rs =>
+    let (h1, s) := h.read r
+    let (h2, r') := h1.alloc s
+    let (h3, rs') := copyRefs h2 rs
+    (h3, r' :: rs')
+
 /-- `SimpleTerm::<'static>::from_term(&t)` for a `&SimpleTerm`: the accessors hand out borrowed
 `MownStr`s, `ensure_owned` copies each of them (reading it) into a fresh buffer -/
 def copyTerm (h : Heap) : TermRef → Heap × TermRef
-  | .iri s => let (h, x) := h.read s; let (h, r) := h.alloc x; (h, .iri r)
-  | .bnode s => let (h, x) := h.read s; let (h, r) := h.alloc x; (h, .bnode r)
-  | .var s => let (h, x) := h.read s; let (h, r) := h.alloc x; (h, .var r)
-  | .lit a b =>
-    let (h, x) := h.read a; let (h, r) := h.alloc x
-    let (h, y) := h.read b; let (h, q) := h.alloc y
-    (h, .lit r q)
-  | .lang a b =>
-    let (h, x) := h.read a; let (h, r) := h.alloc x
-    let (h, y) := h.read b; let (h, q) := h.alloc y
-    (h, .lang r q)
+  | .atom k ss => let (h1, rs) := copyRefs h ss; (h1, .atom k rs)
   | .triple s p o =>
     let (h, a) := copyTerm h s
     let (h, b) := copyTerm h p
@@ -205,11 +225,7 @@ def borrowOf (r : StrRef) : StrRef := { r with owned := false }
 of `ensure_index`: an atom BORROWS every string from `k`; a quoted triple gets its three
 components through `SimpleTerm::<'static>::from_term`, i.e. owned deep copies -/
 def asSimple (h : Heap) : TermRef → Heap × TermRef
-  | .iri s => (h, .iri (borrowOf s))
-  | .bnode s => (h, .bnode (borrowOf s))
-  | .var s => (h, .var (borrowOf s))
-  | .lit a b => (h, .lit (borrowOf a) (borrowOf b))
-  | .lang a b => (h, .lang (borrowOf a) (borrowOf b))
+  | .atom k ss => (h, .atom k (ss.map borrowOf))
   | .triple s p o =>
     let (h, a) := copyTerm h s
     let (h, b) := copyTerm h p
@@ -406,7 +422,7 @@ def HStore.readIdx (s : HStore) : List Nat :=
   else ((s.idx.getD 0 []).flatMap id).filter (· != s.max)
 
 def HStore.refsRead (s : HStore) : List StrRef :=
-  s.readIdx.flatMap (fun i => (s.ix.i2t.getD i (.iri ⟨false, 0, 0⟩)).refs)
+  s.readIdx.flatMap (fun i => (s.ix.i2t.getD i (.atom .iri [])).refs)
 
 /-- may the content be read without UB? -/
 def HStore.readable (h : Heap) (s : HStore) : Bool := s.refsRead.all (fun r => (h.deref r).isSome)
